@@ -2037,8 +2037,14 @@ impl OutstationSession {
                     series.ecsn.increment();
                     let (response, next) =
                         self.format_read_response(database, false, series.ecsn, Iin2::default());
-                    self.write_solicited(io, writer, respond_to, response, database)
+                    let response = self
+                        .write_solicited(io, writer, respond_to, response, database)
                         .await?;
+                    // a repeated READ must now be answered with this fragment, not with the
+                    // header of a previous one applied to the contents of this one
+                    if let Some(last) = &mut self.state.last_valid_request {
+                        last.response = Some(response);
+                    }
                     match next {
                         None => return Ok(()),
                         Some(next) => {
